@@ -87,6 +87,10 @@ def run(ctx):
             fa, fb = build(defs, idx[:half]), build(defs, idx[half:])
             add("files ab", {"a.circom": fa, "b.circom": fb}, ["a.circom", "b.circom"])
             add("files ba", {"a.circom": fa, "b.circom": fb}, ["b.circom", "a.circom"])
+            # the same two files, the first one also including the second one: a file that is both named and included
+            fai = fa.replace(";\n", ";\ninclude \"b.circom\";\n", 1)
+            add("filesinc ab", {"a.circom": fai, "b.circom": fb}, ["a.circom", "b.circom"])
+            add("filesinc ba", {"a.circom": fai, "b.circom": fb}, ["b.circom", "a.circom"])
             # unrelated extra definitions
             g = gen.Gen(rng, max_stmts=4)
             xt, _, _, _ = g.template("Unrelated")
@@ -115,6 +119,7 @@ def run(ctx):
                     # same set of definitions: the whole multiset must be the same (file names differ for the split variant)
                     f = findings(rep, srcs)
                     if kind.startswith("files"):
+                        grp = kind.split()[0]
                         f = sorted(json.dumps([json.loads(x)[0:3]] + [[l[1:] for l in json.loads(x)[3]]] + [[l[1:] for l in json.loads(x)[4]]] + [json.loads(x)[5]]) for x in f) if isinstance(f, list) else f
                         key = "files"
                     else:
@@ -130,11 +135,12 @@ def run(ctx):
                                            "only_in_reference": [x for x in ref[1] if x not in f][:5] if isinstance(f, list) else ref[1], "broken": None})
                     else:
                         by = getattr(run, "_files", {})
-                        if k not in by:
-                            by[k] = (kind, f, files)
-                        elif by[k][1] != f:
+                        if (k, grp) not in by:
+                            by[(k, grp)] = (kind, f, files)
+                        elif by[(k, grp)][1] != f:
                             ctx.violation("input-file-order", {"stage": "L1 input files in another order", "variant": kind, "files": files,
-                                                               "only_here": [x for x in f if x not in by[k][1]][:5], "only_in_other": [x for x in by[k][1] if x not in f][:5], "broken": None})
+                                                               "only_here": [x for x in f if x not in by[(k, grp)][1]][:5],
+                                                               "only_in_other": [x for x in by[(k, grp)][1] if x not in f][:5], "broken": None})
                         run._files = by
                     if kind == "repeat 0":
                         ref_defs = findings(rep, srcs, per_def=True)
